@@ -470,6 +470,9 @@ func (w *World) exec(l Line) (res string) {
 	case "rb":
 		needColl()
 		return w.readback(c, key, l.str("n", ""))
+	case "query":
+		needColl()
+		return w.query(c, int(l.u64("q", 1)))
 	case "draw":
 		return fmt.Sprintf("r=ok cas=%d", rosmar.VerifHLCNow())
 	case "restart":
@@ -854,4 +857,35 @@ func (w *World) restart(hlc uint64) string {
 	}
 	next, _ := rosmar.VerifExpiryState(b)
 	return fmt.Sprintf("r=ok hlc=%d next=%d", rosmar.VerifHLCHighest(), next)
+}
+
+// The query family of C19: id / body property / xattr property projections and filters, over $_keyspace.
+var queryFamily = map[int]string{
+	1: `SELECT json_quote(id) AS id FROM $_keyspace ORDER BY id`,
+	2: `SELECT count(*) AS n FROM $_keyspace`,
+	3: `SELECT json_quote(id) AS id, body AS doc FROM $_keyspace WHERE json_valid(body) ORDER BY id`,
+	4: `SELECT json_quote(id) AS id FROM $_keyspace WHERE xattrs IS NOT NULL ORDER BY id`,
+	5: `SELECT json_quote(id) AS id, xattrs->'$._sync' AS s FROM $_keyspace WHERE xattrs->'$._sync' IS NOT NULL ORDER BY id`,
+	6: `SELECT json_quote(id) AS id FROM $_keyspace WHERE json_valid(body) AND body->>'$.a' >= 50 ORDER BY id`,
+}
+
+func (w *World) query(c *rosmar.Collection, q int) string {
+	it, err := c.Query(sgbucket.SQLiteLanguage, queryFamily[q], nil, sgbucket.RequestPlus, true)
+	if err != nil {
+		return "r=" + errClass(err)
+	}
+	var rows []string
+	for {
+		b := it.NextBytes()
+		if b == nil {
+			break
+		}
+		rows = append(rows, string(b))
+		if len(rows) > 10000 {
+			break
+		}
+	}
+	again := it.NextBytes() // an exhausted iterator stays exhausted
+	err = it.Close()
+	return fmt.Sprintf("r=%s n=%d again=%v rows=%s", errClass(err), len(rows), again != nil, strings.Join(rows, ";"))
 }
